@@ -59,7 +59,7 @@ def dnscfg_overlay(ctx, fallback=False):
     """The statements with which NewControlPlane records dns{} and builds the DnsControllerOption,
     regenerated from /repo's current control_plane.go (translators/c08dnscfg)."""
     from verifkit import sh, go_env, CACHE, VERIF, REPO
-    gen = os.path.join(CACHE, "gen")
+    gen = os.path.join(ctx.out, "gen")   # per run directory (locked by verifkit): no sharing between runs
     os.makedirs(gen, exist_ok=True)
     outp = os.path.join(gen, "c08dnscfg.go")
     if os.path.exists(outp):
@@ -83,6 +83,11 @@ def dnscfg_overlay(ctx, fallback=False):
                           "func c08QuestionKey(c *DnsController, q dnsmessage.Question) string { return %s }\n" % call)
     return {os.path.join(REPO, "control", "zz_verif_c08dnscfg.go"): outp,
             os.path.join(REPO, "control", "zz_verif_c08shim.go"): shim}, mode
+
+
+def arms_floor(ctx):
+    # the hammer stops at its time budget on a slow box: fewer releases than this did not test much
+    return 20000
 
 
 def kvs(line):
@@ -231,7 +236,7 @@ def run(ctx):
                  "op.reconf_with_real_janitor": 8, "ask.class_CH": 80, "ask.simultaneous_identical_requests": 100,
                  "ask.stale_hit_started_refresh": 60, "lookup.when.at_deadline": 40, "lookup.when.at_window_end": 20,
                  "lookup.when.fresh_last_ns": 25, "lookup.when.expired_first_ns": 40, "lookup.when.window_end_plus_1ns": 12,
-                 "insert.access_callback_fails": 40, "op.self_restore": 50, "race.latch_releases_hammered": 100000,
+                 "insert.access_callback_fails": 40, "op.self_restore": 50, "race.latch_releases_hammered": 20000,
                  "insert.reply_class_not_IN": 40, "key.class_not_IN": 100, "insert.not_cacheable_reply": 200,
                  "janitor.evicted_by_real_ticker": 200, "history.ignore_fixed_ttl_heavy": 12}
     floors_br = {"fresh.packed_exact": 80, "fresh.packed_within_slack": 500, "fresh.packed_slack_exactly_15": 50,
@@ -239,12 +244,32 @@ def run(ctx):
                  "stale.first_triggers_refresh": 250, "stale.refresh_already_in_flight": 120,
                  "expired.evict_beyond_window": 150, "expired.evict_not_optimistic": 300, "expired.evict_unpackable": 40,
                  "expired.evict_origdeadline_only": 3, "jan.time_evicted": 500, "jan.lru_evicted": 150}
-    if not any(os.environ.get(v) for v in ("C08_HIST", "C08_ASK", "C08_RACE")):
-        low = [f"{k}={stats['counters'].get(k, 0)}<{v}" for k, v in floors_in.items() if stats["counters"].get(k, 0) < v]
-        br = ctx.cov.get("model_branch_coverage", {})
-        low += [f"{k}={br.get(k, 0)}<{v}" for k, v in floors_br.items() if br.get(k, 0) < v]
-        ctx.cov["generator_floors"] = {"inputs": floors_in, "model_branches": floors_br, "below": low}
-        if low and not ctx.violations and not ctx.proof_failures:
+    sized = [v for v in ("C08_HIST", "C08_ASK", "C08_RACE") if os.environ.get(v)]
+    counters = stats["counters"]
+    if counters.get("race.hammer_skipped_fewer_than_3_cpus"):
+        # the latch hammer needs real parallelism; without it the CAS on the refresh latch is tied only by the
+        # (deterministic) simultaneous-lookup rounds — said in the evidence, not an error
+        floors_in.pop("race.latch_releases_hammered")
+        ctx.cov["latch_hammer"] = "skipped: fewer than 3 usable CPUs"
+    else:
+        ctx.cov["latch_hammer"] = "%d releases, %d looping goroutines" % (
+            counters.get("race.latch_releases_hammered", 0), counters.get("race.hammer_goroutines", 0))
+        if counters.get("race.latch_releases_hammered", 0) < arms_floor(ctx):
+            floors_in["race.latch_releases_hammered"] = arms_floor(ctx)
+    low = [f"{k}={counters.get(k, 0)}<{v}" for k, v in floors_in.items() if counters.get(k, 0) < v]
+    br = ctx.cov.get("model_branch_coverage", {})
+    low += [f"{k}={br.get(k, 0)}<{v}" for k, v in floors_br.items() if br.get(k, 0) < v]
+    ctx.cov["generator_floors"] = {"inputs": floors_in, "model_branches": floors_br, "below": low,
+                                   "size_overrides": {v: os.environ[v] for v in sized}}
+    if not ctx.violations and not ctx.proof_failures:
+        if sized:
+            # a run with reduced / overridden stream sizes is a replay aid, never a verdict
+            ctx.say("GENERATOR-SIZES-OVERRIDDEN", ", ".join(f"{v}={os.environ[v]}" for v in sized),
+                    "- no verdict without the generator floors; unset them for a check run")
+            ctx.finish(rule="stream sizes overridden by environment: floors not applicable", evaluations=len(op_lines),
+                       distinct=len(distinct))
+            return 2
+        if low:
             ctx.say("GENERATOR-BELOW-FLOOR", ", ".join(low))
             ctx.finish(rule="generator floors not met", evaluations=len(op_lines), distinct=len(distinct))
             return 2
